@@ -41,8 +41,14 @@ def slot(bs, ty):
                 Err(uom::si::time::TryFromError::Overflow) => "ovf".to_string(),
             }}
         }}
+        "coefs" => {{
+            let sf = |r: <V as uom::Conversion<V>>::T| {{COEF_SHOW}};
+            format!("{{}} {{}} {{}}", sf(<uom::si::time::second as uom::Conversion<V>>::coefficient()),
+                    sf(<uom::si::time::nanosecond as uom::Conversion<V>>::coefficient()),
+                    sf(<uom::si::time::{{TBASE}} as uom::Conversion<V>>::coefficient()))
+        }}
         _ => "BADOP".to_string(),
-    }}"""
+    }}""".replace("{COEF_SHOW}", 'format!("{}/{}", r.numer(), r.denom())' if STYPES[ty]["cls"] == "z" else 'format!("{:?}", r)').replace("{TBASE}", T.BASE_SETS[bs][2])
 
 
 def float_stored_values(rng, ty, k, n):
@@ -124,15 +130,25 @@ def run(ctx):
                     mlines.append(f"{cid} {ty} std (todur 1 {U} {T.zlist(dT)} {ksec} {knano} {bits})")
             else:
                 st = STYPES[ty]
-                vals = [0, 1, 7, 59, 3600, 86400, -1, -7, 10 ** 9, st["hi"], st["lo"]]
-                vals += [rng.below(10 ** 6) for _ in range(20)]
-                for v in vals:
+                cid = f"t{len(cases)}"
+                cases.append((cid, sl, ["coefs"]))
+                meta[cid] = ("coefs", ty, bs, kfr, "coefs", None)
+                # the whole range of the type: which of these make an intermediate Ratio<iN> overflow is decided by Model/DurationW.v
+                vals = {0, 1, 7, 59, 3600, 86400, -1, -7, 10 ** 9, st["hi"], st["lo"], st["hi"] - 1, st["hi"] // 2, st["lo"] + 1}
+                for m_ in (kfr.numerator, kfr.denominator, kfr.numerator * 10 ** 9, 10 ** 9):
+                    if m_ > 1:
+                        th = st["hi"] // m_
+                        vals |= {th - 1, th, th + 1, -th, -th - 1}
+                for th in ((2 ** 64) * kfr.denominator // kfr.numerator,):          # both sides of 2^64 seconds
+                    vals |= {th - 1, th, th + 1}
+                vals |= {rng.below(10 ** 6) for _ in range(20)}
+                for _ in range(12 if quick else 100):
+                    e = rng.below(st["hi"].bit_length())
+                    x = (1 << e) + rng.below(1 << e)
+                    vals.add(-x if st["lo"] < 0 and rng.below(3) == 0 else x)
+                for v in sorted(vals):
                     if v < st["lo"] or v > st["hi"]:
                         continue
-                    # stay where the conversion arithmetic of the storage type itself cannot overflow
-                    if abs(v) * max(kfr.numerator, kfr.denominator) * 10 ** 9 >= 2 ** ((st["hi"]).bit_length() - 1) and v not in (0,):
-                        if kfr != 1 or abs(v) > 2 ** 31:
-                            continue
                     cid = f"t{len(cases)}"
                     cases.append((cid, sl, ["to", str(v)]))
                     meta[cid] = ("to", ty, bs, kfr, "int", v)
@@ -140,8 +156,6 @@ def run(ctx):
                     (2 ** 63 - 1, 0), (2 ** 63, 0), (2 ** 64 - 1, 999999999)]
             durs += [(rng.below(2 ** (1 + rng.below(63))), rng.below(10 ** 9)) for _ in range(10 if quick else 200)]
             for (s, n) in durs:
-                if ty not in FTYPES and (kfr != 1):
-                    continue
                 cid = f"t{len(cases)}"
                 cases.append((cid, sl, ["from", str(s), str(n)]))
                 meta[cid] = ("from", ty, bs, kfr, "dur", (s, n))
@@ -153,24 +167,68 @@ def run(ctx):
         ctx.violation({"kind": "harness-build", "obligation": "the Time<->Duration harness no longer compiles against /repo", "log": h.build_log[-3000:]}, no_input=True)
         return
     impl = h.run(cases)
-    model = coqbuild.run_model(mlines)
+    # integer storage: the width-checked model runs on the coefficients the storage type publishes
+    icoefs = {}
+    for cid, sl, args in cases:
+        if meta[cid][0] == "coefs":
+            got = impl.get(cid)
+            try:
+                icoefs[(meta[cid][1], meta[cid][2])] = [tuple(int(x) for x in f.split("/")) for f in got.split()]
+            except (ValueError, AttributeError):
+                icoefs[(meta[cid][1], meta[cid][2])] = None
+    ilines = []
+    for cid, sl, args in cases:
+        kind, ty, bs, k, tag, val = meta[cid]
+        if ty in FTYPES or kind not in ("to", "from") or not icoefs.get((ty, bs)):
+            continue
+        (ks_, kn_, kb_) = icoefs[(ty, bs)]
+        st = STYPES[ty]
+        Uw = "(" + " ".join(f"({kb_[0]} {kb_[1]})" if i == 2 else "(1 1)" for i in range(len(dT))) + ")"
+        if kind == "to":
+            ilines.append(f"{cid} dw - (to {st['lo']} {st['hi']} {Uw} {T.zlist(dT)} ({ks_[0]} {ks_[1]}) ({kn_[0]} {kn_[1]}) {val})")
+        else:
+            ilines.append(f"{cid} dw - (from {st['lo']} {st['hi']} {Uw} {T.zlist(dT)} ({ks_[0]} {ks_[1]}) ({kn_[0]} {kn_[1]}) {val[0]} {val[1]})")
+    model = coqbuild.run_model(mlines + ilines)
     ctx.log(f"implementation answered {len(impl)}, model answered {len(model)}")
-    ctx.vm_crosscheck(mlines, model)
+    ctx.vm_crosscheck(mlines + ilines, model)
+    istat = {"cases": 0, "agree": 0, "both_panic": 0}
     spec_fail, disagreements = [], []
     hist = {}
     distinct = set()
     for cid, sl, args in cases:
         kind, ty, bs, k, tag, val = meta[cid]
+        if kind == "coefs":
+            continue
         got = impl.get(cid)
         hist[f"{kind}/{ty}/{bs}"] = hist.get(f"{kind}/{ty}/{bs}", 0) + 1
         distinct.add((kind, ty, bs, str(val)))
+        if ty not in FTYPES and cid in model:
+            m = model[cid].split()
+            if kind == "to":
+                want = {"0": f"ok {m[1]} {m[2]}" if len(m) > 2 else "?", "1": "neg", "2": "ovf", "3": "PANIC"}[m[0]]
+            else:
+                want = {"0": f"ok {m[1]}" if len(m) > 1 else "?", "2": "ovf", "3": "PANIC"}[m[0]]
+            istat["cases"] += 1
+            if got == want:
+                istat["agree"] += 1
+            else:
+                disagreements.append((cid, got, want))
+            if got == "PANIC" and want == "PANIC":
+                istat["both_panic"] += 1
+                # the property says "never panics": a genuine defect of the integer conversion path, known and characterised by the model
+                if kind == "to" and ty == "i32" and k * 10 ** 9 >= 2 ** 31:
+                    if ctx.known_hit("i32-long-base-unit", "Duration::try_from(Time<U, i32>) panics when the time base unit is longer than 2.147 s (factor base/1e-9 overflows Ratio<i32>)"):
+                        continue
+                elif ctx.known_hit("integer-intermediate-overflow", "Time <-> Duration at integer storage panics when an intermediate Ratio<iN> of the conversion leaves the type's range "
+                                                                    "(exactly the cases in which the width-checked model Model/DurationW.v overflows)"):
+                    continue
         if got is None or got in ("PANIC", "BADOP", "NOSLOT"):
             if got == "PANIC" and kind == "to" and ty == "i32" and k * 10 ** 9 >= 2 ** 31 and \
                     ctx.known_hit("i32-long-base-unit", "Duration::try_from(Time<U, i32>) panics when the time base unit is longer than 2.147 s (factor base/1e-9 overflows Ratio<i32>)"):
                 continue
             spec_fail.append((cid, f"conversion answered {got}: it must never panic"))
             continue
-        if cid in model:
+        if cid in model and ty in FTYPES:
             m = model[cid].split()
             if kind == "to":
                 want = {"0": f"ok {m[1]} {m[2]}" if len(m) > 2 else "?", "1": "neg", "2": "ovf", "3": "PANIC"}[m[0]]
@@ -240,19 +298,29 @@ def run(ctx):
                 u_ = Fraction(1, 2 ** FC.FMT[ty]["prec"])
                 if abs(g - exact) > 16 * u_ * exact + FC.ulp_of(exact / k if exact else Fraction(1), ty) * k:
                     spec_fail.append((cid, f"Time {float(g):.17g} s differs from the Duration {float(exact):.17g} s by more than a few ulps"))
-            else:
+            elif k == 1:
                 st = STYPES[ty]
                 if s > st["hi"]:
                     if got != "ovf":
                         spec_fail.append((cid, f"{s} s does not fit {ty} but conversion gave {got}"))
                 elif got != f"ok {s}":
                     spec_fail.append((cid, f"integer Time from Duration({s}, {n}) gave {got}, expected ok {s}"))
+            else:
+                # integer storage in another base unit: seconds and nanoseconds are converted separately, each truncated toward zero
+                st = STYPES[ty]
+                if s > st["hi"]:
+                    if got != "ovf":
+                        spec_fail.append((cid, f"{s} s does not fit {ty} but conversion gave {got}"))
+                elif got.startswith("ok "):
+                    g = int(got.split()[1])
+                    if not (exact / k - 2 < g <= exact / k):
+                        spec_fail.append((cid, f"integer Time from Duration({s}, {n}) in a base unit of {k} s gave {g}, expected within two truncations below {float(exact / k):.6f}"))
 
     def replay_case(cid, extra):
         kind, ty, bs, k, tag, val = meta[cid]
         sl = next(s for c, s, a in cases if c == cid)
         args = next(a for c, s, a in cases if c == cid)
-        line = next((l for l in mlines if l.startswith(cid + " ")), None)
+        line = next((l for l in mlines + ilines if l.startswith(cid + " ")), None)
         return dict({"kind": "time/duration conversion", "direction": kind, "storage": ty, "time_base_unit": T.BASE_SETS[bs][2],
                      "value_class": tag, "args": args, "implementation": impl.get(cid), "model": model.get(cid),
                      "harness": {"features": h.features, "prelude": h.prelude,
@@ -271,6 +339,7 @@ def run(ctx):
                    "seconds and powers of two (incl. 2^64) +-2 ulps mapped into the base unit, sub-second fractions, tiny negatives/positives, every "
                    "binade, random; i64/u64/i32 in range; Duration -> Time for boundary and random durations; distinct by (direction, storage, base, value)")
     cov["disagreements_checked"] = len(disagreements)
+    cov["integer_storage_vs_width_checked_model"] = istat
     cov["spec_failures"] = len(spec_fail)
     cov["histogram"] = hist
     smp = ctx.rng.fork("samples").sample(cases, 6)
